@@ -159,5 +159,9 @@ pub(crate) fn resolve_partial<Fd: AsFd>(
         }
     }
 
-    unreachable!("partial_ancestors should include root path which must be resolvable");
+    // partial_ancestors() ends with the root path, which is normally
+    // resolvable -- but that lookup can fail like any other system call
+    // (resource exhaustion, EINTR, ...), in which case we just return the
+    // error rather than aborting the program.
+    Err(last_error)
 }
